@@ -122,11 +122,17 @@ def create_warning(
         from sphinx.util.logging import getLogger
 
         logger = getLogger(__name__)
+        location = node
+        if location is None:
+            # a (name, line) tuple is read by Sphinx as a *docname*, to which it
+            # appends a source suffix; a node is reported as "<source path>:<line>"
+            location = nodes.Element()
+            location.source, location.line = document["source"], line
         logger.warning(
             message,
             type=type_str,
             subtype=subtype_str,
-            location=node if node is not None else (document["source"], line),
+            location=location,
         )
         if _is_suppressed_warning(
             type_str, subtype_str, document.settings.env.config.suppress_warnings
